@@ -425,6 +425,10 @@ func C03(tier string) int {
 		sc3 := newIdxScenario([]string{"e1", "e1x", "e2"})
 		runE1(rep, sc3, explore.Config{Programs: explore.SingleOps(len(sc3.Ops())), MaxTrans: 6_000_000})
 	}
+	// the same indexes under parent/child layering: entities created, updated and deleted through a plain and an
+	// extended child store (the parent's constraints then run through chained indexing contexts)
+	kc := newKitchen("unique+set index of a parent store used through child stores", kFeat{})
+	runE1(rep, kc, explore.Config{Programs: explore.SingleOps(len(kc.Ops()))})
 	// three entities alive at once (three holders of one set value, an entry in the middle of an index
 	// bucket): a restricted view of the 3-id alphabet - every id keeps its own name, alias stays null -
 	// explored to closure with one and two operations per transaction
